@@ -172,6 +172,7 @@ func runC05(c *an.Ctx, p *an.Prog, thorough bool) {
 		c.Check(okDefer, "C05.2", fnKey(hc)+"|close-deferred-first", p.Pos(hc.Pos()), "defer conn.Close() is the first call of the handler", "conn.Close() is not deferred before the first call of the handler (a panic or early return would leak the connection)")
 	}
 	c054(c, p, "C05.4")
+	saslScannerCapacity(c, p, "C05.1")
 	c055(c, p, "C05.5")
 	c056(c, p)
 	// C05.7 decoder bounds (subset of C02.3's table)
@@ -417,6 +418,7 @@ func runC13(c *an.Ctx, p *an.Prog, thorough bool) {
 	c131enc(c, p)
 	c131split(c, p)
 	c131dec(c, p)
+	saslScannerCapacity(c, p, "C13.1")
 	c132(c, p)
 	c055(c, p, "C13.3")
 	c054(c, p, "C13.3")
@@ -784,4 +786,35 @@ func callErrNilSingle(s *an.PathState, call *an.Term) bool {
 		}
 	}
 	return false
+}
+
+// saslScannerCapacity: the decoder's scanner must be able to hold a limit-sized token (MaxRequestLength + 2 length bytes).
+// bufio's default (64 KiB) does; an explicit Buffer(…, max) must not go below it.
+func saslScannerCapacity(c *an.Ctx, p *an.Prog, rule string) {
+	limit := int64(256)
+	if pk := p.SSAPkg("/sasl"); pk != nil {
+		if k, ok := pk.Members["MaxRequestLength"].(*ssa.NamedConst); ok {
+			limit = k.Value.Int64()
+		}
+	}
+	n := 0
+	var bad []string
+	for _, fn := range pkgFns(p, saslPkg) {
+		for _, ci := range an.CallsTo(fn, "(*bufio.Scanner).Buffer") {
+			n++
+			an.EnumPaths(fn, nil, ci, func(s *an.PathState) {
+				mx := s.CallArgs(ci)[2]
+				v, ok := mx.ConstInt()
+				if !ok {
+					// len(parts) * (MaxRequestLength+2) and the like: accept only if a lower bound is evident
+					bad = append(bad, "scanner token limit is not a constant ("+mx.K+"): cannot show that a "+fmt.Sprint(limit+2)+"-byte token fits")
+					return
+				}
+				if v < limit+2 {
+					bad = append(bad, fmt.Sprintf("scanner token limit %d is below MaxRequestLength+2 = %d: fields of %d..%d bytes, which the protocol allows, are refused with 'token too long'", v, limit+2, v-1, limit))
+				}
+			})
+		}
+	}
+	c.Check(len(bad) == 0, rule, "sasl-decoder|token-capacity", "sasl/sasl_encoding.go", fmt.Sprintf("%d explicit scanner buffer limits, none below MaxRequestLength+2 (bufio's default is 64 KiB)", n), strings.Join(uniqS(bad), "; "))
 }
